@@ -67,9 +67,8 @@ def run(ctx):
     # engine level: StrictlyBetter / out judged on runs of the real engine on synthetic grammars
     groups = engine.engine_groups(ctx, depths=(0, 2), seeds=6 if ctx.quick else 30, scores=(0, 1))
     engine.judge_engine_groups(ctx, groups)
-    texts = corpus_texts()
-    if ctx.quick:
-        texts = [x for i, x in enumerate(texts) if i % 4 == ctx.seed % 4]
+    from .c15 import corpus_sample
+    texts = list(corpus_sample(ctx.quick, ctx.seed, 4))
     extra = ["", " ", "#tag", "#a #b", "xyzzy", "buy milk", "call #mom tomorrow 8pm", "8", "8 8", "9-5", "tomorrow", "5.3.2020 9:00 #work",
              "lunch friday 12-13", "q", "-", "2020", "12am", "at", "the", "morgen", "1", "31.12.", "in", "um",
              # dashes / separators at the edges leave empty words in the subject: both entry points must agree on it verbatim
